@@ -543,6 +543,9 @@ func hostMapKeys(kind string) []interface{} {
 	case "float-neighbours":
 		a, b := 1700000000.0121, 8388609.3
 		return []interface{}{a, math.Nextafter(a, math.Inf(1)), b, math.Nextafter(b, math.Inf(1)), 0.1, math.Nextafter(0.1, 1)}
+	case "float-mixed":
+		// integral and fractional keys whose texts interleave (9 < 10 by value, "10" < "5.5" < "9" by text)
+		return []interface{}{9.0, 10.0, 5.5, 2.0, 1e19, 100.25}
 	case "string":
 		return []interface{}{"a", "a ", "A", "", "\"a\"", "é"}
 	default:
@@ -621,7 +624,7 @@ func TestC13(t *testing.T) {
 	reportKnown(t, "C13")
 	runRegress(t, "C13")
 	c13hostmap.Each(t, "host-map-kinds", func(yield func(*HostMapCase) bool) {
-		for _, k := range []string{"time-subsecond", "time-zones", "float-neighbours", "string", "int"} {
+		for _, k := range []string{"time-subsecond", "time-zones", "float-neighbours", "float-mixed", "string", "int"} {
 			for n := 2; n <= 6; n++ {
 				if !yield(&HostMapCase{Kind: k, N: n}) {
 					return
